@@ -57,6 +57,7 @@ type c02 struct {
 	step  int
 	// private key registered for the client that delegated assertions name as subject (not as issuer)
 	subjectKey jose.JSONWebKey
+	third      *world.SignKey // shape two-plus-other-type: the published key of the other key type
 }
 
 func (c *c02) viol(rule, site, format string, a ...any) {
@@ -359,7 +360,7 @@ func RunC02(t *testing.T, spec kernel.Spec) *kernel.Outcome {
 		c := &c02{w: w, o: o}
 		// key-set shape of the provider
 		cur := w.Store.CurrentKey()
-		shapes := []string{"single", "two-same-type", "single-nokid", "two-nokid", "mixed-types", "with-enc-key", "use-empty"}
+		shapes := []string{"single", "two-same-type", "single-nokid", "two-nokid", "mixed-types", "with-enc-key", "use-empty", "two-plus-other-type"}
 		c.shape = shapes[cfg.Int(len(shapes))]
 		second := world.SignKeyFromFixture(world.FixtureKey(w.AlgPrefix, w.KeyN+1), w.SigAlg, "sig-second")
 		switch c.shape {
@@ -380,6 +381,14 @@ func RunC02(t *testing.T, spec kernel.Spec) *kernel.Outcome {
 			m := world.SignKeyFromFixture(world.FixtureKey(pfx, 2), alg, "sig-other-type")
 			w.Store.Keys = append(w.Store.Keys, m)
 			c.other = m
+		case "two-plus-other-type":
+			pfx, alg := "p256-", jose.ES256
+			if w.AlgPrefix != "rsa" {
+				pfx, alg = "rsa", jose.RS256
+			}
+			c.third = world.SignKeyFromFixture(world.FixtureKey(pfx, 2), alg, "sig-other-type")
+			w.Store.Keys = append(w.Store.Keys, second, c.third)
+			c.other = second
 		case "with-enc-key":
 			second.Use = "enc"
 			w.Store.Keys = append(w.Store.Keys, second)
@@ -555,6 +564,35 @@ func RunC02(t *testing.T, spec kernel.Spec) *kernel.Outcome {
 				o.Probe("kidless-probes")
 				if c.shape == "two-same-type" && (accepted || acc2) {
 					c.viol("ambiguity-guessed", "kidless/two-candidates", "a token without kid was accepted although two published keys fit its algorithm (rp=%v hint=%v)", accepted, acc2)
+				}
+			}
+		}
+		// a history of kid-less tokens on one long-lived key set with two keys of the token's type and one of another:
+		// ambiguous before, ambiguous after - whatever was verified in between
+		id++
+		if c.shape == "two-plus-other-type" && (!o.Spec.KeepSet || containsInt(o.Spec.Keep, id)) {
+			c.step = id
+			o.StepIDs = append(o.StepIDs, id)
+			o.Steps++
+			_, p, _ := splitJWT(s.tokens.IDToken)
+			idv2 := rp.NewIDTokenVerifier(w.Issuer, client, ks, rp.WithSupportedSigningAlgorithms(string(w.SigAlg), string(c.third.Alg)), rp.WithNonce(func(context.Context) string { return "nonce-1" }))
+			try := func(tok string) bool {
+				_, err := rp.VerifyIDToken[*oidc.IDTokenClaims](context.Background(), tok, idv2)
+				return err == nil
+			}
+			byCur, bySecond := signWith(dec(p), cur.Alg, cur.Priv, "", nil), signWith(dec(p), second.Alg, second.Priv, "", nil)
+			byThird := signWith(dec(p), c.third.Alg, c.third.Priv, "", nil)
+			o.Probe("kidless-history-probes")
+			for round := 0; round < 2; round++ {
+				for _, nt := range [][2]string{{"second", bySecond}, {"current", byCur}} {
+					name, tok := nt[0], nt[1]
+					if round == 1 && try(byThird) { // each time right after a kid-less token of the other key type was verified
+						o.Probe("kidless-unique-candidate-accepted")
+					}
+					o.Fault("kidless")
+					if try(tok) {
+						c.viol("ambiguity-guessed", "kidless/history", "a token without kid signed by the %s of two published %s keys was accepted (%s a kid-less token of the other key type was verified on the same key set)", name, w.SigAlg, map[int]string{0: "before", 1: "right after"}[round])
+					}
 				}
 			}
 		}
